@@ -34,6 +34,15 @@ var solvers = []solverSpec{
 		return []string{"z3-new", "smt.mbqi=false", "auto_config=false", fmt.Sprintf("-T:%d", t), f}
 	}},
 	{"z3-new-mbqi", func(f string, t int) []string { return []string{"z3-new", fmt.Sprintf("-T:%d", t), f} }},
+	{"z3-new-s1", func(f string, t int) []string {
+		return []string{"z3-new", "smt.mbqi=false", "auto_config=false", "smt.random_seed=1", "sat.random_seed=1", fmt.Sprintf("-T:%d", t), f}
+	}},
+	{"z3-new-s4", func(f string, t int) []string {
+		return []string{"z3-new", "smt.mbqi=false", "auto_config=false", "smt.random_seed=4", "sat.random_seed=4", fmt.Sprintf("-T:%d", t), f}
+	}},
+	{"z3-new-s7", func(f string, t int) []string {
+		return []string{"z3-new", "smt.mbqi=false", "auto_config=false", "smt.random_seed=7", "sat.random_seed=7", fmt.Sprintf("-T:%d", t), f}
+	}},
 	{"cvc5", func(f string, t int) []string {
 		return []string{"cvc5", "--lang=smt2", fmt.Sprintf("--tlimit=%d", t*1000), "--produce-models", f}
 	}},
@@ -112,8 +121,8 @@ func solveOne(e *Enc, o *Obl, opts solveOpts, idx int) *SolveResult {
 	defer cancel()
 	// stage 1: z3-new alone with a short budget
 	quick := opts.timeoutS
-	if quick > 4 {
-		quick = 4
+	if quick > 2 {
+		quick = 2
 	}
 	if o.Cover {
 		// reachability covers: a short budget; "unknown" is accepted (quantified sat is hard)
